@@ -1032,6 +1032,12 @@ impl Ctx {
                     }
                     return;
                 }
+                Out::Compile(m) if m.contains("maximum number of registers") => {
+                    // a generated program with more than 255 locals in one frame: the compiler's
+                    // documented limit (an error, as C05 demands), not a type-hint matter
+                    self.rep.bump("skipped: program exceeds the register limit of a frame");
+                    return;
+                }
                 Out::Compile(m) => {
                     self.k_fail += 1;
                     if self.k_fail <= 5 {
@@ -2732,6 +2738,34 @@ fn main() {
         std::process::exit(cx.rep.finish());
     }
 
+    let emit_corpus = args.extra.iter().position(|x| x == "--emit-corpus").and_then(|i| args.extra.get(i + 1)).cloned();
+    if let Some(dir) = emit_corpus {
+        // hand-picked witnesses written as corpus files (run once by the author)
+        let _ = std::fs::create_dir_all(&dir);
+        let picks: Vec<(&str, Prog)> = vec![
+            ("base-chain-depth3", template("let", &hint("Foo", false), &chain(&[MetaTy::Absent, MetaTy::Str("Bar".into()), MetaTy::Absent, MetaTy::Str("Foo".into())], None))),
+            ("optional-null-arg", template("arg", &hint("String", true), &V::Null)),
+            ("match-falls-through", template("match-second-arm", &hint("String", false), &V::Str("s".into()))),
+            ("catch-falls-through", template("catch-second", &hint("Foo", false), &obj_t("Bar", Some(obj_t("Foo", None))))),
+            ("yield-second-fails", template("yield-second", &hint("String", false), &V::Str("s".into()))),
+            ("gen-arg-lazy", template("gen-arg", &hint("Number", false), &V::Str("s".into()))),
+            ("let-writes-before-assert", template("let-in-try", &hint("String", false), &V::Int(42))),
+            ("base-is-number", template("let", &hint("Number", false), &obj_t("Bar", Some(V::Int(42))))),
+            // a hinted wildcard target still consumes its value when checks are disabled (seeded C16-mut1)
+            ("multi-assign-typed-wildcard-list", form_template("multi:list:1:wild", &hint("String", false), &V::Str("x".into()))),
+            ("multi-assign-typed-named-wildcard-generator", form_template("multi:gen:0:wildn", &hint("String", false), &V::Str("x".into()))),
+            // a hinted wildcard that fails in a non-last `or` alternative passes on to the next alternative (seeded C16-mut3)
+            ("match-or-typed-wildcard-second-alternative", form_template("match-or:0:wild", &hint("Bool", false), &V::Str("s".into()))),
+            ("match-multi-typed-wildcard-pairs", form_template("match-multi-pairs:wild", &hint("Number", false), &V::Str("s".into()))),
+            ("match-nested-or", form_template("match-nested-or:wildn", &hint("Bool", false), &V::Str("s".into()))),
+            ("nested-arg-wildcard", form_template("arg-nested-deep:wild", &hint("String", false), &V::Int(3))),
+        ];
+        for (n, p) in picks {
+            let body = json!({"name": n, "request": request(&p), "script": render(&p).unwrap()});
+            std::fs::write(format!("{}/{}.json", dir, n), serde_json::to_string_pretty(&body).unwrap()).unwrap();
+        }
+        return;
+    }
     // 0. corpus (JSON files with `request` + `script`) and witnesses of listed findings
     if let Some(dir) = &args.corpus {
         if let Ok(rd) = std::fs::read_dir(dir) {
@@ -2790,7 +2824,6 @@ fn main() {
 
     // 2. the grid
     let names = all_hint_names();
-    let emit_corpus = args.extra.iter().position(|x| x == "--emit-corpus").and_then(|i| args.extra.get(i + 1)).cloned();
     let mut n_grid = 0u64;
     for pos in POSITIONS {
         for name in &names {
@@ -2854,25 +2887,6 @@ fn main() {
                "extra_chain_values": chains.len(), "grid_programs": n_grid}),
     );
     values.clear();
-
-    if let Some(dir) = emit_corpus {
-        // hand-picked witnesses written as corpus files (run once by the author)
-        let _ = std::fs::create_dir_all(&dir);
-        let picks: Vec<(&str, Prog)> = vec![
-            ("base-chain-depth3", template("let", &hint("Foo", false), &chain(&[MetaTy::Absent, MetaTy::Str("Bar".into()), MetaTy::Absent, MetaTy::Str("Foo".into())], None))),
-            ("optional-null-arg", template("arg", &hint("String", true), &V::Null)),
-            ("match-falls-through", template("match-second-arm", &hint("String", false), &V::Str("s".into()))),
-            ("catch-falls-through", template("catch-second", &hint("Foo", false), &obj_t("Bar", Some(obj_t("Foo", None))))),
-            ("yield-second-fails", template("yield-second", &hint("String", false), &V::Str("s".into()))),
-            ("gen-arg-lazy", template("gen-arg", &hint("Number", false), &V::Str("s".into()))),
-            ("let-writes-before-assert", template("let-in-try", &hint("String", false), &V::Int(42))),
-            ("base-is-number", template("let", &hint("Number", false), &obj_t("Bar", Some(V::Int(42))))),
-        ];
-        for (n, p) in picks {
-            let body = json!({"name": n, "request": request(&p), "script": render(&p).unwrap()});
-            std::fs::write(format!("{}/{}.json", dir, n), serde_json::to_string_pretty(&body).unwrap()).unwrap();
-        }
-    }
 
     // 3. seeded random programs
     let mut rng = Rng::new(args.seed);
